@@ -112,7 +112,7 @@ func dedupe(ls []esl.List) []esl.List {
 func genCase(t *rapid.T) Case {
 	var c Case
 	if rapid.IntRange(0, 2).Draw(t, "startkind") == 0 {
-		ls := dedupe(gen.ESLStream(4).Draw(t, "start"))
+		ls := gen.ESLStream(4).Draw(t, "start") // a decoded database may hold an entry twice in one list
 		// no EXTERNAL_MANAGEMENT start lists: those entries are outside the operation universe
 		var keep []esl.List
 		for _, l := range ls {
@@ -212,10 +212,31 @@ func describe(e esl.Flat) string {
 	return fmt.Sprintf("(%s, %s, %s)", e.Type.Text(), e.Owner.Text(), d)
 }
 
-func invariants(db *signature.SignatureDatabase, v view, step string) error {
+func entryKey(t guid.G, e esl.Entry) string { return t.Text() + "/" + e.Owner.Text() + "/" + string(e.Data) }
+
+// startDuplicates lists the entries that the start state already holds twice in one list.
+func startDuplicates(ls []esl.List) map[string]bool {
+	out := map[string]bool{}
+	for _, l := range ls {
+		seen := map[string]bool{}
+		for _, e := range l.Entries {
+			k := entryKey(l.Type, e)
+			if seen[k] {
+				out[k] = true
+			}
+			seen[k] = true
+		}
+	}
+	return out
+}
+
+func invariants(db *signature.SignatureDatabase, v view, step string, startDup map[string]bool) error {
 	for i, l := range v.lists {
 		for a := 0; a < len(l.Entries); a++ {
 			for b := a + 1; b < len(l.Entries); b++ {
+				if startDup[entryKey(l.Type, l.Entries[a])] {
+					continue // the decoded start state already held this entry twice
+				}
 				if l.Entries[a].Owner == l.Entries[b].Owner && bytes.Equal(l.Entries[a].Data, l.Entries[b].Data) {
 					return fmt.Errorf("%s: list %d holds two identical entries (%d and %d)", step, i, a, b)
 				}
@@ -254,6 +275,10 @@ func checkCase(c Case) error {
 		return fmt.Errorf("start database differs from reference decoding: %v", err)
 	}
 
+	startDup := startDuplicates(start)
+	if len(startDup) > 0 {
+		hx.Class("start_state_with_duplicate_entry_in_a_list")
+	}
 	var st struct{ appendsOK, removesOK, pem, twoTypes, appendList, multiStart, dupRefused, removeAbsent int }
 	if len(start) > 1 {
 		st.multiStart = 1
@@ -567,7 +592,7 @@ func checkCase(c Case) error {
 		default:
 			return fmt.Errorf("bad case: op kind %q", op.Kind)
 		}
-		if err := invariants(db, cur, step); err != nil {
+		if err := invariants(db, cur, step, startDup); err != nil {
 			return err
 		}
 		for _, l := range cur.lists {
